@@ -17,7 +17,7 @@ func compileFunction(vm *r.VM, node *syntax.FunctionDeclareStmt) *value.Function
 		return evalExecBlock(vm, node.ExecBlock, params)
 	}
 
-	return value.NewFunction(mainLogicHandler)
+	return value.NewFunction(mainLogicHandler).SetModule(vm.GetCurrentModule())
 }
 
 // （显示：A、B、C），得到D
@@ -60,9 +60,15 @@ func evalFunctionCall(vm *r.VM, expr *syntax.FuncCallExpr) (r.Element, error) {
 func execMethodFunction(vm *r.VM, root r.Element, funcName *r.IDName, params []r.Element) (r.Element, error) {
 	switch robj := root.(type) {
 	case *value.Object:
-		_, refModule, err := vm.FindElementWithModule(r.NewIDName(robj.GetObjectName()))
-		if err != nil {
-			return nil, err
+		// the method runs in the module that defines the object's type; looking the type's
+		// name up in the caller's scope is only the fallback for native types
+		refModule := robj.GetModel().GetModule()
+		if refModule == nil {
+			var err error
+			_, refModule, err = vm.FindElementWithModule(r.NewIDName(robj.GetObjectName()))
+			if err != nil {
+				return nil, err
+			}
 		}
 		fnCallFrame := r.NewFunctionCallFrame(refModule, root)
 		vm.PushCallFrame(fnCallFrame)
@@ -89,6 +95,11 @@ func execDirectFunction(vm *r.VM, funcName *r.IDName, params []r.Element) (r.Ele
 	elem, module, err := vm.FindElementWithModule(funcName)
 	if err != nil {
 		return nil, err
+	}
+	// a method written in Zn runs in the module that defines it, whatever name it is reached
+	// through (an alias of an imported method, a parameter, a loop variable)
+	if fnv, ok := elem.(*value.Function); ok && fnv.GetModule() != nil {
+		module = fnv.GetModule()
 	}
 	// pushCallFrame
 	fnCallFrame := r.NewFunctionCallFrame(module, nil)
